@@ -65,13 +65,14 @@ func genC03(r *gen.Rand) *C03Case {
 	exts := []string{"yaml", "yaml", "json", "yml", "jsonl"}
 	// the same layout with every "$" ($parent, $match) spelled as an escape sequence
 	escDollar := r.Chance(0.06)
+	crlf := r.Chance(0.06) // every file written with CRLF line endings
 	put := func(path string, docs ...any) {
 		if _, ok := gen.StreamText(procsim.Ext(path), docs); !ok {
 			b := "{}\n"
 			w.Files = append(w.Files, procsim.File{Path: path, Raw: &b})
 			return
 		}
-		w.Files = append(w.Files, procsim.File{Path: path, Docs: treeDocs(docs...), EscDollar: escDollar})
+		w.Files = append(w.Files, procsim.File{Path: path, Docs: treeDocs(docs...), EscDollar: escDollar, CRLF: crlf})
 	}
 	mkBase := func(tag string) map[string]any {
 		m := tc.Map(r, 2)
@@ -319,11 +320,17 @@ func genC03(r *gen.Rand) *C03Case {
 		c.Linear = false
 		c.Shape = append(c.Shape, "twin-chains")
 	case 8: // $parent with invalid / conflicting values
-		switch r.Intn(3) {
+		switch r.Intn(4) {
 		case 0:
 			setParent(top, true, false)
 		case 1:
 			setParent(top, "nosuch", false)
+		case 2:
+			// a value that is neither a name, a list, false nor null (an
+			// unquoted number is the classic YAML slip): naming a parent that
+			// cannot be looked up must not pass silently
+			put(filepath.Join(dir, "2024.yaml"), mkBase("y2024"))
+			setParent(top, gen.PickAny(r, []any{2024, 1.5, map[string]any{"name": "p9"}}), r.Chance(0.3))
 		default:
 			setParent(top, false, false)
 			setParent(top, "p9", true)
